@@ -150,12 +150,36 @@ def gen_tree(rng, malformed=False):
             files[f'mols/{name.lower()}_a.itp'] = lines
             files[f'mols/{name.lower()}_b.itp'] = alt
             root += [f'#ifdef {m}', f'#include "mols/{name.lower()}_a.itp"', '#else', f'#include "mols/{name.lower()}_b.itp"', '#endif']
-    root += ['[ system ]', 'generated system', '[ molecules ]']
-    for _ in range(rng.randint(1, 4)):
-        root.append(f'{rng.choice(names)} {rng.randint(1, 3)}')
+    # the composition: in the root, in an included file of its own, or split over the root and included files (the
+    # [ molecules ] entries of the whole tree form one list in textual order, whichever file defines the molecule types)
+    composition = [(rng.choice(names), rng.randint(1, 3)) for _ in range(rng.randint(1, 4))]
     kind = 'wf'
     if malformed:
         kind = rng.choice(['unbalanced', 'missing_file', 'unknown_section', 'unknown_molecule', 'nested_ifdef', 'stray_else', 'bad_pragma'])
+    entries = [f'{n} {c}' for n, c in composition] + (['GHOST 2'] if kind == 'unknown_molecule' else [])
+    where = rng.choice(['root', 'root', 'file', 'split', 'cond'])
+    if where == 'cond' and any(l.startswith('[ moleculetype') for l in root):
+        # a conditional after a molecule type began in the same file is swallowed by the molecule block (finding F7a)
+        where = 'split'
+    if where == 'root':
+        root += ['[ system ]', 'generated system', '[ molecules ]'] + entries
+    elif where == 'file':
+        files['setup/composition.inc'] = ['[ system ]', 'generated system', '[ molecules ]'] + entries
+        root.append('#include "setup/composition.inc"')
+    elif where == 'split':
+        k = rng.randint(0, len(entries))
+        j = rng.randint(k, len(entries))
+        files['setup/part.inc'] = ['[ molecules ]'] + entries[k:j]
+        root += ['[ system ]', 'generated system', '[ molecules ]'] + entries[:k] + ['#include "setup/part.inc"'] + entries[j:]
+    else:
+        m = rng.choice(macros)
+        other = [(rng.choice(names), rng.randint(1, 3)) for _ in range(rng.randint(1, 3))]
+        files['setup/small.inc'] = ['[ molecules ]'] + entries
+        files['setup/large.inc'] = ['[ molecules ]'] + [f'{n} {c}' for n, c in other]
+        root += ['[ system ]', 'generated system', f'#ifdef {m}', '#include "setup/large.inc"', '#else', '#include "setup/small.inc"', '#endif']
+        if m in defined:
+            composition = other
+    if malformed:
         if kind == 'unbalanced':
             root.insert(rng.randint(2, len(root) - 3), '#ifdef NEVERCLOSED')
         elif kind == 'missing_file':
@@ -163,7 +187,7 @@ def gen_tree(rng, malformed=False):
         elif kind == 'unknown_section':
             root[2:2] = ['[ nosuchsection ]', 'a b c']
         elif kind == 'unknown_molecule':
-            root.append('GHOST 2')
+            pass
         elif kind == 'nested_ifdef':
             root[2:2] = ['#ifdef A', '#ifdef B', '#endif', '#endif']
         elif kind == 'stray_else':
@@ -171,7 +195,7 @@ def gen_tree(rng, malformed=False):
         else:
             root.insert(2, '#pragma once')
     files['system.top'] = root
-    return {'files': files, 'root': 'system.top', 'kind': kind, 'defined': defined}
+    return {'files': files, 'root': 'system.top', 'kind': kind, 'defined': defined, 'composition': composition}
 
 
 def write_tree(wd, tree, rng=None):
@@ -343,7 +367,7 @@ Fixpoint fsget (f : list (string * list string)) (p : string) : option (list str
   match f with [] => None | (k, v) :: r => if String.eqb k p then Some v else fsget r p end.
 Definition go (files : list (string * list string)) (root : string) :=
   match fsget files root with
-  | Some ls => show (read top_known_sections (fsget files) 10 (dirname root) ls sh_empty)
+  | Some ls => show (read_top top_known_sections (fsget files) 10 (dirname root) ls sh_empty)
   | None => show (Err ErrIO)
   end.
 """
@@ -552,11 +576,15 @@ def run(ctx):
         if not same(impl, plain, skip=('blocks',)):
             ctx.violation('spec', f"comments / blank lines / whitespace change the result: {first_diff(impl, plain)}",
                           {'tree': tree, 'kind': 'decoration', 'diff': first_diff(impl, plain)})
-        if 'error' not in impl:
+        if 'error' not in impl and tree.get('kind') in ('wf', None):
             exp = []
-            for raw in tree['files'][tree['root']][tree['files'][tree['root']].index('[ molecules ]') + 1:]:
-                nm, c = raw.split()
-                exp += [nm] * int(c)
+            if 'composition' in tree:
+                for nm, c in tree['composition']:
+                    exp += [nm] * int(c)
+            else:
+                for raw in tree['files'][tree['root']][tree['files'][tree['root']].index('[ molecules ]') + 1:]:
+                    nm, c = raw.split()
+                    exp += [nm] * int(c)
             if impl['molecules'] != exp or any(impl['mol_idx_by_name'][k] != [i for i, x in enumerate(exp) if x == k] for k in set(exp)):
                 ctx.violation('spec', f"molecule list {impl['molecules']} is not the expanded [molecules] section {exp}",
                               {'tree': tree, 'kind': 'molecules'})
